@@ -47,7 +47,36 @@ pub fn pool(k: usize, seed: u64) -> Vec<Vec<Vec<u8>>> {
         }],
         vec![g[k - 2..].to_vec(), pal.clone()],
         vec![snp(&snp(&g, h), 2 * k + h), rep],
-        vec![other(&g, h).to_ascii_lowercase(), pal],
+        vec![other(&g, h).to_ascii_lowercase(), pal.clone()],
+        // index 8: rows whose only stored symbol is N — the self-complementary arms with an A and with a C middle base
+        // (W + S = N with both strands), and the first window four times with the four middle bases
+        vec![
+            pal.clone(),
+            {
+                let mut t = pal.clone();
+                t[h] = b'C';
+                t
+            },
+            g[..k + 1].to_vec(),
+            {
+                let mut t = g[..k].to_vec();
+                t[h] = other(&g, h)[h];
+                t.push(b'G');
+                t
+            },
+            {
+                let mut t = g[..k].to_vec();
+                t[h] = comp(g[h]);
+                t.push(b'T');
+                t
+            },
+            {
+                let mut t = g[..k].to_vec();
+                t[h] = comp(other(&g, h)[h]);
+                t.push(b'C');
+                t
+            },
+        ],
     ]
 }
 
